@@ -18,9 +18,10 @@ INVARIANT ArgSound
 INVARIANT InterfacesLaw
 INVARIANT NullabilityLaw
 INVARIANT IdRoundTrip
+INVARIANT ResLaw
 """
 NEGATIVE = {"nullskips": "ArgLaw", "directbases": "InterfacesLaw", "enumdefault": "ArgLaw", "ehcatchesargs": "ArgLaw",
-            "infobreak": "ArgLaw", "idliteralraw": "ArgLaw"}
+            "infobreak": "ArgLaw", "idliteralraw": "ArgLaw", "asyncunhandled": "ResLaw"}
 FINDING = "F-gql-enum-default"
 # classes of the model that are parametrisations of the generic class Box of the module header
 GENERICS = {"IntBox": "Box[int]", "StrBox": "Box[str]"}
@@ -361,6 +362,21 @@ def run_setting(rep: common.Report, model: dict, cases: List[dict], st: Setting)
             ops.append(Query(ns[f"param_{i}"], error_handler=handler))
         else:
             ops.append(ns[f"param_{i}"])
+    # ---- resolver outcomes: generated operations that return or raise, under every error_handler
+    outcomes = [c for c in cases if c["kind"] == "res"]
+    for i, c in enumerate(outcomes):
+        r = c["r"]
+        ns = dict(mod.__dict__, box=box)
+        body = f"    return {value_expr(r['v'])}\n" if r["out"] == "ok" else "    raise RuntimeError('resolver failed')\n"
+        exec(("async " if r["mode"] == "async" else "") + f"def res_{i}() -> {type_expr(r['t'])}:\n    box['res_called'] = True\n" + body, ns)
+        exec(("async " if r["hmode"] == "async" else "") + "def handler_(error: Exception, obj, info, **kwargs) -> int:\n"
+             "    box['handled'] = type(error).__name__\n    return -1\n", ns)
+        if r["eh"] == "unset":
+            ops.append(ns[f"res_{i}"])
+        elif r["eh"] == "none":
+            ops.append(Query(ns[f"res_{i}"], error_handler=None))
+        else:
+            ops.append(Query(ns[f"res_{i}"], error_handler=ns["handler_"]))
     classes = [getattr(mod, name) for name, c in model["ct"].items() if c["kind"] != "hidden" and name not in GENERICS]
     try:
         schema = graphql_schema(query=ops, types=classes, id_types=[mod.Uid], **st.kwargs())
@@ -429,6 +445,32 @@ def run_setting(rep: common.Report, model: dict, cases: List[dict], st: Setting)
                 rep.violation(f"executing {query} on {value_expr(case['in'])}: {res.data} {[str(e) for e in res.errors or []][:2]} "
                               f"but selecting every field must give {want} [{st.label}]",
                               dict(info0, t=c["t"], value=case["in"], query=query, got=res.data, want=want))
+    # ---- resolver outcomes
+    import asyncio
+
+    for i, c in enumerate(outcomes):
+        r = c["r"]
+        name = st.aliaser(f"res_{i}")
+        fld = schema.query_type.fields[name]
+        n += 1
+        info = dict(info0, r=r, expected=c["out"])
+        what = (f"{r['mode']} operation -> {type_expr(r['t'])} that {'returns ' + value_expr(r['v']) if r['out'] == 'ok' else 'raises'}, "
+                f"error_handler {r['eh']}" + (f" ({r['hmode']})" if r["eh"] == "custom" else ""))
+        if str(fld.type) != c["gtype"]:
+            rep.violation(f"{what}: GraphQL type {fld.type} but the model maps it to {c['gtype']} [{st.label}]", info)
+        box.pop("handled", None)
+        if r["mode"] == "async" or (r["eh"] == "custom" and r["hmode"] == "async"):
+            res = asyncio.run(graphql.graphql(schema, "{ " + name + " }"))
+        else:
+            res = graphql.graphql_sync(schema, "{ " + name + " }")
+        info["errors"] = [str(e) for e in res.errors or []]
+        if c["out"]["kind"] == "error":
+            if not res.errors:
+                rep.violation(f"{what}: executed without error ({res.data}), the error must reach the client [{st.label}]", info)
+        elif res.errors or res.data != {name: w.data(c["out"]["v"])}:
+            rep.violation(f"{what}: data {res.data} errors {info['errors'][:1]}, the model gives {{{name!r}: {w.data(c['out']['v'])!r}}} [{st.label}]", info)
+        if r["out"] == "raise" and r["eh"] == "custom" and box.get("handled") != "RuntimeError":
+            rep.violation(f"{what}: the error handler was not invoked with the resolver's exception [{st.label}]", info)
     # ---- parameters
     for i, c in enumerate(params):
         p = c["p"]
@@ -489,7 +531,8 @@ def main() -> int:
     rep.assumptions = ["one data model (12 classes: objects, interfaces two levels deep and through a concrete class, union, enum, Literal, "
                        "NewType scalar, ID, constrained int, flattened field, resolver with a parameter), two settings of aliaser / enum_aliaser",
                        "id_types (a NewType over str) in every setting, id_encoding in a third setting; every supplied argument through two channels (query literal, variable)",
-                       "subscriptions, relay helpers, asynchronous resolvers, conversions in GraphQL are not modelled",
+                       "resolver outcomes (returns / raises) x error_handler x sync / async resolver and handler",
+                       "subscriptions, relay helpers, conversions in GraphQL are not modelled",
                        "`x: int = None` (implicit Optional) parameters are outside the pool"]
     for dev, law in NEGATIVE.items():
         res = tlc.run_tlc("MC_Gql", CFG % ('{"%s"}' % dev, "TRUE" if dev == "idliteralraw" else "FALSE"), workers=4, timeout_s=900)
